@@ -2,7 +2,7 @@ import MjProof.Model.Arena
 /-
 Executable model of the code that *consumes* `mj_arenaAllocByte` (DESIGN.md §5.C20):
 
-  engine_collision_driver.c   pushPairArena, mj_narrowphase (contact buffer), mj_collidePlaneFlex /
+  engine_collision_driver.c   pushPairArena, mj_narrowphase (contact buffer), mj_collideGeomElem /
                               mj_collideElems / mj_collideElemVert (flex contacts)
   engine_core_constraint.c    mj_addContact, arenaAllocEfc (X-macro over MJDATA_ARENA_POINTERS_SOLVER),
                               mj_makeY, mj_makeAR (sparse and dense branches)
@@ -305,7 +305,7 @@ def narrowphaseCon (n : Nat) : List Stmt :=
    .ifNull [vCon] [.warn .contactFull, .freeStack] .retVoid,
    .act (.addNcon n), .store vCon, .act .freeStack]
 
-/-- mj_collidePlaneFlex and mj_collideElemVert: warning, then mj_freeStack. -/
+/-- mj_collideGeomElem and mj_collideElemVert: warning, then mj_freeStack. -/
 def flexCon (n : Nat) : List Stmt :=
   [.act .markStack, .alloc vCon (SZCON * n) ALCON,
    .ifNull [vCon] [.warn .contactFull, .freeStack] .retVoid,
